@@ -284,6 +284,50 @@ def checkForall2 : List IntroTest → List SerTest → Bool
 def checkTests (is : List IntroTest) (ss : List SerTest) (targetIds : List Str) : Bool :=
   checkForall2 is ss && is.all (fun i => i.depends.all (fun d => decide (d ∈ targetIds)))
 
+/-! ### test dependencies vs build.ninja (a witness that does not come from the test serialisation) -/
+
+/-- what a test uses: its `depends` ids and the words of its command line resolved to absolute paths -/
+structure TestUse where
+  depends : List Str
+  paths : List Str
+  deriving DecidableEq, Repr
+
+/-- id and files of an intro-targets.json entry -/
+structure TargetFiles where
+  id : Str
+  files : List Str
+  deriving DecidableEq, Repr
+
+def firstOutput (ts : List TargetFiles) (id : Str) : Option Str :=
+  match ts.find? (fun t => decide (t.id = id)) with
+  | some t => t.files.head?
+  | none => none
+
+/-- the files `ninja` is asked for when the dependencies of all tests are built -/
+def dependsOutputs (us : List TestUse) (ts : List TargetFiles) : List Str :=
+  (us.flatMap (·.depends)).filterMap (firstOutput ts)
+
+/-- the `depends` of all tests name exactly the targets behind `build meson-test-prereq: phony …`
+(`meson-benchmark-prereq` for benchmarks) -/
+def AgreesPrereq (us : List TestUse) (ts : List TargetFiles) (prereq : List Str) : Prop :=
+  SameSet (dependsOutputs us ts) prereq
+
+def checkPrereq (us : List TestUse) (ts : List TargetFiles) (prereq : List Str) : Bool :=
+  sameSetB (dependsOutputs us ts) prereq
+
+/-- every built file on a test's command line is made by a target the test depends on -/
+def CmdCovered (us : List TestUse) (ts : List TargetFiles) : Prop :=
+  ∀ u ∈ us, ∀ p ∈ u.paths, ∀ t ∈ ts, p ∈ t.files → t.id ∈ u.depends
+
+def checkCmdCovered (us : List TestUse) (ts : List TargetFiles) : Bool :=
+  us.all (fun u => u.paths.all (fun p => ts.all (fun t => !decide (p ∈ t.files) || decide (t.id ∈ u.depends))))
+
+def AgreesTestDeps (us : List TestUse) (ts : List TargetFiles) (prereq : List Str) : Prop :=
+  AgreesPrereq us ts prereq ∧ CmdCovered us ts
+
+def checkTestDeps (us : List TestUse) (ts : List TargetFiles) (prereq : List Str) : Bool :=
+  checkPrereq us ts prereq && checkCmdCovered us ts
+
 /-! ### install plan / installed vs install.dat -/
 
 inductive IKind where
